@@ -177,6 +177,7 @@ func runCase(rt *rapid.T) {
 	}
 	var harvestedMsgs []fullMsg
 	answerHonest := true
+	waited := false
 
 	mk := func(session []byte, main bool) *cluster {
 		c := &cluster{session: session, net: memnet.New(), comps: map[int]*bcast.Component{}}
@@ -313,9 +314,15 @@ func runCase(rt *rapid.T) {
 				main.net.Drop(main.net.Take(rapid.IntRange(0, np-1).Draw(rt, "drop")))
 				trace = append(trace, "drop")
 			}
-		case op < 60:
+		case op < 59:
 			answerHonest = !answerHonest
 			trace = append(trace, fmt.Sprintf("faultyAnswers=%v", answerHonest))
+		case op < 60: // time passes (a faulty member may wait as long as it likes between its requests; a ceremony takes minutes)
+			d := rapid.SampledFrom([]time.Duration{time.Second, 30 * time.Second, 3 * time.Minute, 20 * time.Minute, 3 * time.Hour}).Draw(rt, "wait")
+			time.Sleep(d)
+			synctest.Wait()
+			waited = true
+			trace = append(trace, fmt.Sprintf("wait(%v)", d))
 		case op < 75: // faulty: signature requests (possibly different payloads per receiver, either session)
 			id := ids[rapid.IntRange(0, len(ids)-1).Draw(rt, "rid")]
 			if rapid.IntRange(0, 9).Draw(rt, "unregistered") == 0 {
@@ -567,7 +574,7 @@ func runCase(rt *rapid.T) {
 		}
 	}
 	nontrivial := gotHonestSigs > 0 && sentMsgFrames > 0
-	vstat.Case(strings.Join(trace, ";"), nontrivial, cls("faulty_got_sigs", gotHonestSigs > 0), cls("faulty_sent_msg", sentMsgFrames > 0),
+	vstat.Case(strings.Join(trace, ";"), nontrivial, cls("time_passed_between_actions", waited), cls("faulty_got_sigs", gotHonestSigs > 0), cls("faulty_sent_msg", sentMsgFrames > 0),
 		cls("honest_delivery", len(main.deliv) > 0), cls("relay_attempted", relays > 0), cls("relay_delivered(known finding)", relayedDeliveries > 0), fmt.Sprintf("n=%d", n))
 	vstat.Count("deliveries", int64(len(main.deliv)))
 	if nontrivial && len(main.deliv) > 0 && vstat.WantSample("history") {
